@@ -31,6 +31,7 @@ type Case struct {
 	local       bool
 	localClause string
 	weight      int
+	distinctWeight int
 }
 
 type Problem struct {
@@ -185,7 +186,16 @@ func (r *Runner) reader() {
 			}
 			r.sum.Evaluations += w
 			r.sum.Classes[c.Class] += w
-			r.sum.Distinct += w
+			if c.distinctWeight > 0 {
+				r.sum.Distinct += c.distinctWeight
+			} else {
+				r.sum.Distinct += w
+			}
+			if len(r.sum.Samples) < 8 {
+				cc := *c
+				cc.Replay = nil
+				r.sum.Samples = append(r.sum.Samples, &cc)
+			}
 			if r.outcomeOf != nil {
 				r.sum.ImplOutcomes[r.outcomeOf(c)] += w
 			}
